@@ -47,7 +47,7 @@ def run(ctx):
         v, r = ctx.vectors("PrettyGrammarGen", "PrettyGrammarGen_%s2.cfg" % pool, "gg_" + pool, timeout=1800)
         ctx.bounds[pool] = r.distinct
         if not thorough and pool != "compound":
-            v = [x for j, x in enumerate(v) if x["ntok"] == 1 or j % 3 == ctx.seed % 3]
+            v = [x for j, x in enumerate(v) if x["ntok"] == 1 or j % 5 == ctx.seed % 5]
         vec += v
     ctx.exhaustive = thorough
     # longer sentences: TLC -simulate over the mixed pool
